@@ -38,6 +38,8 @@ UNITS = {
     "gluecurve": {"driver": None, "harness": None, "gens": None, "props": {
         p: ["CxVerif.Props.C15.GlueTieCurve"] for p in ("C12", "C13", "C14", "C15", "C17", "C19")}},
     "refusal": {"driver": None, "harness": None, "gens": None, "props": {"C20": ["CxVerif.Props.C20.Refusal"]}},
+    "gluerest": {"driver": None, "harness": None, "gens": None, "props": {
+        p: ["CxVerif.Props.C20.GlueTieRest"] for p in ("C01", "C02", "C03", "C05", "C10", "C11", "C17", "C18", "C20")}},
     "hashlen": {"driver": "HashLen", "harness": "ops_hashlen", "gens": "hashlen",
                 "props": {"C01": ["CxVerif.Props.C20.HashLen"], "C20": ["CxVerif.Props.C20.HashLen"]}},
     "long": {"driver": "Long", "harness": "ops_long", "gens": "long", "props": {}},
